@@ -195,7 +195,6 @@ def run(tier, seed):
                                'what': 'a valid encrypted assertion was rejected (%s)' % why})
     finally:
         sigver.CryptoBackendXmlSec1.validate_signature, sigver.CryptoBackendXmlSec1.decrypt = saved
-        logging.disable(logging.NOTSET)
     return {'name': 'sig_table', 'label': 'BOUNDED (finite table of the statement through the real SP entry point with a stubbed tool; not a proof)',
             'bound': '8 option settings x 3 x 3 signature states x {plain, encrypted} = 144 cells; 6 mutations x {plain, encrypted}; '
                      'undecryptable content; 1 control',
